@@ -1007,10 +1007,25 @@ class ModelsOps:
         if l is r or getattr(l, "norm_of", None) is r or getattr(r, "norm_of", None) is l:
             return BoolV(not neg)
         a, b = self.st.norm(l.mag), self.st.norm(r.mag)
-        if not a.equals(b):
-            return BoolV(neg)
         if self.norm_dims(l.dims) != self.norm_dims(r.dims):
             return BoolV(neg)
+        # single-unit terms: equal exactly when the units are identical
+        if l.items is not None and r.items is not None and len(l.items) == 1 and len(r.items) == 1 \
+                and isinstance(l.items[0][0], UnitV) and isinstance(r.items[0][0], UnitV):
+            e1, e2 = self.exp_of(l.items[0][1], node), self.exp_of(r.items[0][1], node)
+            if e1 != e2:
+                return BoolV(neg)
+            same = self.decide_same_unit(l.items[0][0].uid, r.items[0][0].uid, node)
+            return BoolV(same != neg)
+        if not a.equals(b):
+            q = a / b
+            ats = q.atoms()
+            if len(ats) == 1 and next(iter(ats))[0] == "nu":
+                return BoolV(neg)       # a numeric element of a normal form is never 1
+            c = self.I.choose(2, f"term-eq@{getattr(node, 'lineno', '?')}", ["differ", "equal"])
+            if c == 1:
+                self.st.equate(a, b)
+            return BoolV(bool(c) != neg)
         c = self.I.choose(2, f"term-eq@{getattr(node, 'lineno', '?')}", ["differ", "equal"])
         return BoolV(bool(c) != neg)
 
